@@ -100,6 +100,8 @@ def run_impl(case):
         "reaped": o["exit_observed"],
         "nout": len(o["stdout"]) if res else 0, "nerr": len(o["stderr"]) if res else 0,
         "joins": o.get("joins"), "thread_excs": o.get("thread_excs"), "elapsed": round(o["elapsed"], 3),
+        # only with case["glue"] (C08): the groups of events delivered within one poll interval of the wait loop
+        "bursts": o.get("bursts") or [],
     }
 
 
